@@ -58,6 +58,7 @@ pub fn hostile_input(r: &mut Rng, corpus: &Corpus, max_len: usize) -> Input {
                 chrono: r.chance(2, 3),
                 scramble: r.chance(1, 4),
                 near_object_points: r.chance(1, 3),
+                near_times: r.chance(1, 5),
                 ..osu::Cfg::default()
             };
             (osu::gen_map(r, &cfg).text().into_bytes(), "grammar-accepted")
